@@ -190,7 +190,7 @@ Lemma walk_crash_points bs : forall ws d b r s g prev,
 Proof.
   induction ws as [|u ws IH]; intros d b r s g prev Hr Hp Hw.
   - simpl. rewrite Hr. destruct prev as [[[r0 s0] g0]|]; simpl in *; [rewrite Hp|]; reflexivity.
-  - simpl in Hw. destruct (recover bs (apply_unit d u)) as [b' r' s' g'|] eqn:E; [|exfalso; apply Hw; reflexivity].
+  - cbn [walk] in Hw. destruct (recover bs (apply_unit d u)) as [b' r' s' g'|] eqn:E; [|exfalso; apply Hw; reflexivity].
     destruct (le_t (r, s, g) (r', s', g')) eqn:El; [|exfalso; apply Hw; reflexivity].
     assert (Hrest : all_ok_monotone (Some (r, s, g)) (crash_points bs (apply_unit d u) ws) = true).
     { eapply IH; eauto. }
@@ -220,8 +220,9 @@ Lemma walk_irrelevant bs : forall ws d b r s g,
   recover bs d = VOk b r s g -> forallb (unit_irrelevant r s) ws = true ->
   walk bs (r, s, g) d ws = Some (r, s, g) /\ recover bs (replay d ws) = VOk b r s g.
 Proof.
-  induction ws as [|u ws IH]; intros d b r s g H Hall; simpl; [auto|].
+  induction ws as [|u ws IH]; intros d b r s g H Hall; [simpl; auto|].
   simpl in Hall. apply andb_true_iff in Hall. destruct Hall as [H1 H2].
+  cbn [walk replay fold_left].
   rewrite (recover_unit_irrelevant _ _ _ _ _ _ _ H H1). rewrite le_t_refl.
   apply IH; [|exact H2]. apply recover_unit_irrelevant; assumption.
 Qed.
@@ -312,7 +313,7 @@ Proof.
     rewrite (has_dput _ KSetID (VNum (g + 1)) _ E3a), (has_dput _ KSetID (VNum (g + 1)) _ E3b),
             (has_dput _ KSetID (VNum (g + 1)) _ E4).
     unfold state_ok in *. rewrite (state_ok_fuel_grows _ _ _ _ _ (grows_dput d2 KSetID (VNum (g + 1))) E3c).
-    simpl. rewrite dput_same.
+    cbn [andb]. rewrite dput_same.
     assert (A : has (dput d2 KSetID (VNum (g + 1))) (KAuth (g + 1)) = true).
     { apply has_dput. unfold d2. apply has_dput. unfold d1. apply has_dput_same. }
     assert (C : has (dput d2 KSetID (VNum (g + 1))) (KChange (g + 1)) = true).
@@ -322,9 +323,388 @@ Proof.
     destruct (has d2 (KAuth g0)); [|discriminate]. destruct (has d2 (KChange g0)); [|discriminate].
     inversion H2; subst. reflexivity. }
   split.
-  - simpl. fold d1. rewrite H1, le_t_refl. fold d2. rewrite H2, le_t_refl. rewrite H3.
+  - cbn [walk apply_unit]. fold d1. rewrite H1, le_t_refl. fold d2. rewrite H2, le_t_refl. rewrite H3.
     assert (L : le_t (r, s, g) (r, s, g + 1) = true).
     { simpl. rewrite le_rs_refl. simpl. apply N.leb_le. lia. }
     rewrite L. reflexivity.
   - simpl. fold d1. fold d2. exact H3.
+Qed.
+
+(* ---- transporting the invariant ---- *)
+Lemma Inv_irrelevant bsF st d r s ws :
+  Inv bsF st d r s -> forallb (unit_irrelevant r s) ws = true -> Inv bsF st (replay d ws) r s.
+Proof.
+  intros I H. pose proof (grows_replay ws d) as G.
+  assert (V : forall k, reads_value r s k = true -> replay d ws k = d k)
+    by (intros k Hk; apply (value_replay_irrelevant r s); assumption).
+  destruct I. constructor; auto.
+  - rewrite V; [assumption|reflexivity].
+  - rewrite V; [assumption|]. simpl. rewrite !N.eqb_refl. reflexivity.
+  - rewrite V; [assumption|reflexivity].
+Qed.
+
+(* Inv only looks at these fields of the volatile state *)
+Lemma Inv_fields bsF st st' d r s :
+  Inv bsF st d r s -> s_blocks st' = s_blocks st -> s_fin st' = s_fin st ->
+  s_set st' = s_set st -> le_rs r s (s_round st') (s_set st') = true -> Inv bsF st' d r s.
+Proof.
+  intros I Eb Ef Es Hle. destruct I. constructor; rewrite ?Eb, ?Ef, ?Es; auto.
+  rewrite <- Es. exact Hle.
+Qed.
+
+Lemma le_rs_next_set r s rd g rd' : le_rs r s rd g = true -> le_rs r s rd' (g + 1) = true.
+Proof.
+  unfold le_rs. intros H. apply orb_true_iff in H. apply orb_true_iff. left. apply N.ltb_lt.
+  destruct H as [H|H]; [apply N.ltb_lt in H; lia|].
+  apply andb_true_iff in H. destruct H as [H _]. apply N.eqb_eq in H. lia.
+Qed.
+
+(* the three writes of a set change *)
+Lemma Inv_change bsF st d r s rd' sch frc :
+  Inv bsF st d r s ->
+  walk bsF (r, s, s_set st) d (set_change_units (s_set st)) = Some (r, s, s_set st + 1) /\
+  Inv bsF (mks (s_blocks st) (s_fin st) rd' (s_set st + 1) sch frc)
+      (replay d (set_change_units (s_set st))) r s.
+Proof.
+  intros I. pose proof (Inv_recover _ _ _ _ _ I) as Hr.
+  destruct (change_units_safe bsF d _ _ _ _ Hr (i_set _ _ _ _ _ I)) as [W _]. split; [exact W|].
+  set (g := s_set st). unfold set_change_units. simpl. fold g.
+  set (d1 := dput d (KAuth (g + 1)) VUnit). set (d2 := dput d1 (KChange (g + 1)) (VNum 0)).
+  set (d3 := dput d2 KSetID (VNum (g + 1))).
+  assert (G : grows d d3).
+  { eapply grows_trans; [apply grows_dput|]. eapply grows_trans; apply grows_dput. }
+  assert (V : forall k, k <> KAuth (g + 1) -> k <> KChange (g + 1) -> k <> KSetID -> d3 k = d k).
+  { intros k A B C. unfold d3, d2, d1. rewrite !dput_other; auto. }
+  destruct I. constructor; cbn [s_blocks s_fin s_round s_set]; auto.
+  - eapply le_rs_next_set; eassumption.
+  - unfold d3. apply has_dput. unfold d2. apply has_dput. unfold d1. apply has_dput_same.
+  - unfold d3. apply has_dput. unfold d2. apply has_dput_same.
+Qed.
+
+(* ---- import ---- *)
+Lemma wf_snoc bs p n : wf_blocks bs -> p < N.of_nat (length bs) -> wf_blocks (bs ++ [mkb p n]).
+Proof.
+  intros Hwf Hp i x H Hi. unfold bget in H.
+  destruct (Nat.lt_ge_cases (N.to_nat i) (length bs)) as [L|L].
+  - rewrite nth_error_app1 in H by exact L. eapply Hwf; eauto.
+  - rewrite nth_error_app2 in H by exact L.
+    destruct (N.to_nat i - length bs)%nat as [|k] eqn:E; simpl in H.
+    + inversion H; subst. simpl. lia.
+    + destruct k; discriminate.
+Qed.
+
+Lemma Inv_import bsF st d r s p n rd sch frc :
+  Inv bsF st d r s -> p < N.of_nat (length (s_blocks st)) ->
+  extends (s_blocks st ++ [mkb p n]) bsF ->
+  has d (KSt (N.of_nat (length (s_blocks st)))) = true ->
+  le_rs r s rd (s_set st) = true ->
+  Inv bsF (mks (s_blocks st ++ [mkb p n]) (s_fin st) rd (s_set st) sch frc) d r s.
+Proof.
+  intros I Hp Hext Hst Hle. destruct I. constructor; simpl; auto.
+  - apply wf_snoc; assumption.
+  - rewrite app_length. simpl. lia.
+  - intros x Hx. rewrite app_length in Hx. simpl in Hx.
+    destruct (N.eq_dec x (N.of_nat (length (s_blocks st)))) as [->|Hne]; [exact Hst|].
+    apply i_st0. lia.
+  - rewrite app_length. simpl. lia.
+Qed.
+
+(* ---- finalisation ---- *)
+Lemma fin_block_units_irrelevant bs r s x : forallb (unit_irrelevant r s) (fin_block_units bs x) = true.
+Proof. unfold fin_block_units. destruct (numof bs x =? 1); reflexivity. Qed.
+
+Lemma concat_irrelevant bs r s ch :
+  forallb (unit_irrelevant r s) (concat (map (fin_block_units bs) ch)) = true.
+Proof.
+  induction ch as [|x ch IH]; [reflexivity|]. cbn [map concat].
+  rewrite forallb_app, fin_block_units_irrelevant, IH. reflexivity.
+Qed.
+
+Lemma hsh_batch_irrelevant bs r s ch :
+  unit_irrelevant r s (WBatch (map (fun x => (KHsh (numof bs x), VBlk x)) ch)) = true.
+Proof. simpl. induction ch; simpl; auto. Qed.
+
+Lemma concat_writes_hdr_blb bs ch b d :
+  In b ch -> has (replay d (concat (map (fin_block_units bs) ch))) (KHdr b) = true /\
+             has (replay d (concat (map (fin_block_units bs) ch))) (KBlb b) = true.
+Proof.
+  revert d. induction ch as [|x ch IH]; intros d Hin; [destruct Hin|].
+  cbn [map concat]. unfold replay. rewrite fold_left_app. fold (replay d (fin_block_units bs x)).
+  fold (replay (replay d (fin_block_units bs x)) (concat (map (fin_block_units bs) ch))).
+  destruct Hin as [->|Hin]; [|apply IH; exact Hin].
+  pose proof (grows_replay (concat (map (fin_block_units bs) ch)) (replay d (fin_block_units bs b))) as G.
+  split; apply G; unfold fin_block_units; destruct (numof bs b =? 1); simpl.
+  - apply has_dput, has_dput, has_dput. apply has_dput_same.
+  - apply has_dput, has_dput. apply has_dput_same.
+  - apply has_dput. apply has_dput_same.
+  - apply has_dput. apply has_dput_same.
+Qed.
+
+Lemma replay_app d ws1 ws2 : replay d (ws1 ++ ws2) = replay (replay d ws1) ws2.
+Proof. unfold replay. apply fold_left_app. Qed.
+
+Lemma Inv_finalise bsF st d r s b r' rd sch frc :
+  Inv bsF st d r s -> b < N.of_nat (length (s_blocks st)) ->
+  d (KFh r' (s_set st)) = Some (VBlk b) -> has d (KHdr b) = true -> has d (KBlb b) = true ->
+  le_rs r' (s_set st) rd (s_set st) = true ->
+  Inv bsF (mks (s_blocks st) b rd (s_set st) sch frc) (dput d KHrs (VPair r' (s_set st))) r' (s_set st).
+Proof.
+  intros I Hb Hfh Hh Hbl Hle. destruct I. constructor; simpl; auto.
+Qed.
+
+(* ---- one operation ---- *)
+Definition cur_of (st : sim) (r s : N) : triple := (r, s, s_set st).
+
+Lemma walk_irrelevant' bsF st d r s ws :
+  Inv bsF st d r s -> forallb (unit_irrelevant r s) ws = true ->
+  walk bsF (cur_of st r s) d ws = Some (cur_of st r s).
+Proof.
+  intros I H. eapply walk_irrelevant; [apply Inv_recover; exact I|exact H].
+Qed.
+
+Lemma step_safe bsF st d r s o :
+  Inv bsF st d r s ->
+  extends (s_blocks (snd (step set_change_units st o))) bsF ->
+  exists r' s', walk bsF (cur_of st r s) d (fst (step set_change_units st o))
+                = Some (cur_of (snd (step set_change_units st o)) r' s') /\
+                Inv bsF (snd (step set_change_units st o)) (replay d (fst (step set_change_units st o))) r' s'.
+Proof.
+  intros I Hext. unfold step in *. destruct (valid st o) eqn:Hv; simpl negb in *; cbn iota in *.
+  2:{ exists r, s. simpl. split; [reflexivity|exact I]. }
+  destruct o as [p dg|b r'].
+  - (* import *)
+    simpl in Hv. apply andb_true_iff in Hv. destruct Hv as [Hv _]. apply andb_true_iff in Hv.
+    destruct Hv as [Hp _]. apply N.ltb_lt in Hp.
+    set (bs := s_blocks st) in *. set (x := N.of_nat (length bs)) in *.
+    set (bs' := bs ++ [mkb p (numof bs p + 1)]) in *.
+    set (sched' := match dg with DSched dl => Some (x, dl) | _ => s_sched st end) in *.
+    set (forced' := match dg with DForced dl => Some (x, dl) | _ => s_forced st end) in *.
+    assert (Hirr : forallb (unit_irrelevant r s) [WBatch [(KSt x, VUnit)]] = true) by reflexivity.
+    pose proof (Inv_irrelevant _ _ _ _ _ _ I Hirr) as I1.
+    pose proof (walk_irrelevant' _ _ _ _ _ _ I Hirr) as W1.
+    assert (Hst : has (replay d [WBatch [(KSt x, VUnit)]]) (KSt x) = true) by (simpl; apply has_dput_same).
+    destruct (forced_applies bs' forced' x) eqn:Hf; cbn [fst snd s_blocks] in Hext |- *.
+    + assert (I2 : Inv bsF (mks bs' (s_fin st) (s_round st) (s_set st) None None)
+                       (replay d [WBatch [(KSt x, VUnit)]]) r s).
+      { apply Inv_import; auto. apply (i_le _ _ _ _ _ I). }
+      destruct (Inv_change bsF _ _ r s 0 None None I2) as [W2 I3]. simpl in W2, I3.
+      exists r, s. split.
+      * change ([WBatch [(KSt x, VUnit)]] ++ set_change_units (s_set st))
+          with ([WBatch [(KSt x, VUnit)]] ++ set_change_units (s_set st)).
+        rewrite walk_app, W1. unfold cur_of in *. simpl. exact W2.
+      * rewrite replay_app. exact I3.
+    + exists r, s. split; [exact W1|].
+      apply Inv_import; auto. apply (i_le _ _ _ _ _ I).
+  - (* finalise *)
+    simpl in Hv. repeat (apply andb_true_iff in Hv; destruct Hv as [Hv ?]).
+    apply N.ltb_lt in Hv.
+    match goal with H : sanc _ _ _ = true |- _ => rename H into Hs end.
+    match goal with H : (s_round st <? r') = true |- _ => apply N.ltb_lt in H; rename H into Hrd end.
+    unfold sanc in Hs. apply andb_true_iff in Hs. destruct Hs as [_ Hne].
+    apply negb_true_iff, N.eqb_neq in Hne.
+    set (bs := s_blocks st) in *. set (g := s_set st) in *.
+    destruct (chain bs (s_fin st) b) as [ch|] eqn:Hc.
+    2:{ exists r, s. simpl. split; [reflexivity|exact I]. }
+    pose proof (chain_has_end _ _ _ _ Hc Hne) as Hin.
+    set (A1 := concat (map (fin_block_units bs) ch) ++
+               [WBatch (map (fun x => (KHsh (numof bs x), VBlk x)) ch)]).
+    set (uFh := WPut (KFh r' g) (VBlk b)). set (uHrs := WPut KHrs (VPair r' g)). set (uLfr := WPut KLfr (VNum r')).
+    assert (Hws : concat (map (fin_block_units bs) ch) ++
+                  [WBatch (map (fun x => (KHsh (numof bs x), VBlk x)) ch); uFh; uHrs; uLfr]
+                  = (A1 ++ [uFh]) ++ [uHrs] ++ [uLfr]).
+    { unfold A1. rewrite <- !app_assoc. reflexivity. }
+    (* the pair (r', g) is new *)
+    pose proof (i_le _ _ _ _ _ I) as Hle. fold g in Hle.
+    assert (Hnew : (r' =? r) && (g =? s) = false).
+    { unfold le_rs in Hle. apply orb_true_iff in Hle. destruct Hle as [L|L].
+      - apply N.ltb_lt in L. apply andb_false_iff. right. apply N.eqb_neq. lia.
+      - apply andb_true_iff in L. destruct L as [L1 L2]. apply N.eqb_eq in L1. apply N.leb_le in L2.
+        apply andb_false_iff. left. apply N.eqb_neq. lia. }
+    assert (HleNew : le_rs r s r' g = true).
+    { unfold le_rs in *. apply orb_true_iff in Hle. apply orb_true_iff. destruct Hle as [L|L]; [left; exact L|].
+      apply andb_true_iff in L. destruct L as [L1 L2]. right. rewrite L1. apply N.leb_le in L2. simpl. apply N.leb_le. lia. }
+    assert (HirrA : forallb (unit_irrelevant r s) (A1 ++ [uFh]) = true).
+    { unfold A1. rewrite !forallb_app, concat_irrelevant. cbn [forallb]. rewrite hsh_batch_irrelevant.
+      unfold uFh. cbn [unit_irrelevant reads_value]. rewrite Hnew. reflexivity. }
+    pose proof (Inv_irrelevant _ _ _ _ _ _ I HirrA) as IA.
+    pose proof (walk_irrelevant' _ _ _ _ _ _ I HirrA) as WA.
+    set (dA := replay d (A1 ++ [uFh])) in *.
+    assert (HfhA : dA (KFh r' g) = Some (VBlk b)).
+    { unfold dA. rewrite replay_app. simpl. apply dput_same. }
+    assert (HhA : has dA (KHdr b) = true /\ has dA (KBlb b) = true).
+    { unfold dA, A1. rewrite !replay_app.
+      destruct (concat_writes_hdr_blb bs ch b d Hin) as [H1 H2].
+      split; apply grows_replay; apply grows_replay; assumption. }
+    destruct HhA as [HhdrA HblbA].
+    (* the write of hrs moves the head *)
+    assert (IB : Inv bsF (mks bs b r' g (s_sched st) (s_forced st)) (dput dA KHrs (VPair r' g)) r' g).
+    { apply (Inv_finalise bsF st dA r s b r' r' (s_sched st) (s_forced st) IA Hv HfhA HhdrA HblbA).
+      apply le_rs_refl. }
+    pose proof (Inv_recover _ _ _ _ _ IB) as RB. simpl in RB.
+    assert (HirrL : forallb (unit_irrelevant r' g) [uLfr] = true) by reflexivity.
+    pose proof (Inv_irrelevant _ _ _ _ _ _ IB HirrL) as IC.
+    pose proof (walk_irrelevant' _ _ _ _ _ _ IB HirrL) as WC. unfold cur_of in WC. simpl in WC.
+    assert (Wmain : walk bsF (cur_of st r s) d ((A1 ++ [uFh]) ++ [uHrs] ++ [uLfr]) = Some (r', g, g)).
+    { rewrite walk_app, WA. fold dA. rewrite walk_app. cbn [walk apply_unit uHrs].
+      rewrite RB. unfold cur_of. fold g.
+      assert (L : le_t (r, s, g) (r', g, g) = true) by (simpl; rewrite HleNew, N.leb_refl; reflexivity).
+      rewrite L. cbn [replay fold_left apply_unit]. exact WC. }
+    assert (Rmain : replay d ((A1 ++ [uFh]) ++ [uHrs] ++ [uLfr]) = replay (dput dA KHrs (VPair r' g)) [uLfr]).
+    { rewrite replay_app. fold dA. rewrite replay_app. reflexivity. }
+    destruct (sched_applies bs (s_sched st) b) eqn:Hsa; cbn [fst snd s_blocks] in Hext |- *.
+    + destruct (Inv_change bsF _ _ r' g 0 None (s_forced st) IC) as [W2 I3]. simpl in W2, I3.
+      exists r', g. split.
+      * rewrite Hws, walk_app, Wmain, Rmain. exact W2.
+      * rewrite Hws, replay_app, Rmain. exact I3.
+    + exists r', g. split.
+      * rewrite Hws. exact Wmain.
+      * rewrite Hws, Rmain. exact IC.
+Qed.
+
+(* ---- whole scenarios ---- *)
+Lemma extends_trans a b c : extends a b -> extends b c -> extends a c.
+Proof. intros [t1 ->] [t2 ->]. exists (t1 ++ t2). rewrite app_assoc. reflexivity. Qed.
+
+Lemma step_blocks_extends cu st o : extends (s_blocks st) (s_blocks (snd (step cu st o))).
+Proof.
+  unfold step. destruct (negb (valid st o)); [apply extends_refl|].
+  destruct o as [p dg|b r].
+  - match goal with |- context [if ?c then _ else _] => destruct c end; simpl;
+      eexists; reflexivity.
+  - destruct (chain (s_blocks st) (s_fin st) b); [|apply extends_refl].
+    destruct (sched_applies (s_blocks st) (s_sched st) b); simpl; apply extends_refl.
+Qed.
+
+Lemma run_blocks_extends cu ops : forall st, extends (s_blocks st) (s_blocks (snd (run cu st ops))).
+Proof.
+  induction ops as [|o ops IH]; intros st; simpl; [apply extends_refl|].
+  pose proof (step_blocks_extends cu st o) as E1.
+  destruct (step cu st o) as [w st1]. specialize (IH st1).
+  destruct (run cu st1 ops) as [w' st2]. simpl in *. eapply extends_trans; eauto.
+Qed.
+
+Lemma run_safe bsF : forall ops st d r s,
+  Inv bsF st d r s -> extends (s_blocks (snd (run set_change_units st ops))) bsF ->
+  exists r' s', walk bsF (cur_of st r s) d (fst (run set_change_units st ops))
+                = Some (cur_of (snd (run set_change_units st ops)) r' s') /\
+                Inv bsF (snd (run set_change_units st ops)) (replay d (fst (run set_change_units st ops))) r' s'.
+Proof.
+  induction ops as [|o ops IH]; intros st d r s I Hext.
+  - simpl. exists r, s. split; [reflexivity|exact I].
+  - simpl in *. pose proof (step_safe bsF st d r s o I) as HS.
+    pose proof (run_blocks_extends set_change_units ops (snd (step set_change_units st o))) as E2.
+    destruct (step set_change_units st o) as [w st1] eqn:Es. simpl in HS, E2.
+    destruct (run set_change_units st1 ops) as [w' st2] eqn:Er. simpl in Hext, E2 |- *.
+    destruct (HS (extends_trans _ _ _ E2 Hext)) as [r1 [s1 [W1 I1]]].
+    specialize (IH st1 (replay d w) r1 s1 I1). rewrite Er in IH. simpl in IH.
+    destruct (IH Hext) as [r2 [s2 [W2 I2]]].
+    exists r2, s2. split.
+    + rewrite walk_app, W1. exact W2.
+    + rewrite replay_app. exact I2.
+Qed.
+
+Theorem prefix_safe_bool ops :
+  all_ok_monotone None
+    (crash_points (s_blocks (snd (run_fixed sim0 ops))) db0 (fst (run_fixed sim0 ops))) = true.
+Proof.
+  unfold run_fixed. set (bsF := s_blocks (snd (run set_change_units sim0 ops))).
+  assert (E : extends (s_blocks sim0) bsF) by apply run_blocks_extends.
+  pose proof (Inv_init bsF E) as I0.
+  destruct (run_safe bsF ops sim0 db0 0 0 I0 (extends_refl _)) as [r [s [W _]]].
+  eapply walk_crash_points with (b := 0) (r := 0) (s := 0) (g := 0).
+  - apply (Inv_recover _ _ _ _ _ I0).
+  - exact I.
+  - unfold cur_of in W. simpl in W. rewrite W. discriminate.
+Qed.
+
+(* ---- from the boolean statement to the statement about every pair of crash points ---- *)
+Lemma crash_points_nth bs : forall ws d n, (n <= length ws)%nat ->
+  nth_error (crash_points bs d ws) n = Some (recover bs (replay d (firstn n ws))).
+Proof.
+  induction ws as [|u ws IH]; intros d n Hn.
+  - simpl in Hn. assert (n = 0)%nat by lia. subst. reflexivity.
+  - destruct n as [|n]; [reflexivity|]. simpl. apply IH. simpl in Hn. lia.
+Qed.
+
+Lemma le_t_trans p q t : le_t p q = true -> le_t q t = true -> le_t p t = true.
+Proof.
+  destruct p as [[r1 s1] g1], q as [[r2 s2] g2], t as [[r3 s3] g3]. simpl. intros A B.
+  apply andb_true_iff in A. apply andb_true_iff in B. destruct A as [A1 A2], B as [B1 B2].
+  apply andb_true_iff. split; [eapply le_rs_trans; eauto|].
+  apply N.leb_le in A2, B2. apply N.leb_le. lia.
+Qed.
+
+Lemma aom_all_ok : forall l prev v, all_ok_monotone prev l = true -> In v l ->
+  exists b r s g, v = VOk b r s g.
+Proof.
+  induction l as [|x l IH]; intros prev v H Hin; [destruct Hin|].
+  simpl in H. destruct x as [b r s g|]; [|discriminate].
+  apply andb_true_iff in H. destruct H as [_ H].
+  destruct Hin as [<-|Hin]; [eauto|eapply IH; eauto].
+Qed.
+
+Lemma aom_from : forall l p0 v, all_ok_monotone (Some p0) l = true -> In v l ->
+  match v with VOk _ r s g => le_t p0 (r, s, g) = true | VFail _ => False end.
+Proof.
+  induction l as [|x l IH]; intros p0 v H Hin; [destruct Hin|].
+  simpl in H. destruct x as [b r s g|]; [|discriminate].
+  apply andb_true_iff in H. destruct H as [H0 H].
+  assert (L0 : le_t p0 (r, s, g) = true) by (destruct p0 as [[r0 s0] g0]; exact H0).
+  destruct Hin as [<-|Hin]; [exact L0|].
+  specialize (IH _ _ H Hin). destruct v as [b' r' s' g'|]; [|exact IH].
+  eapply le_t_trans; eauto.
+Qed.
+
+Lemma aom_pairs : forall l prev i j vi vj, all_ok_monotone prev l = true -> (i <= j)%nat ->
+  nth_error l i = Some vi -> nth_error l j = Some vj ->
+  exists bi ri si gi bj rj sj gj, vi = VOk bi ri si gi /\ vj = VOk bj rj sj gj /\
+    le_t (ri, si, gi) (rj, sj, gj) = true.
+Proof.
+  induction l as [|x l IH]; intros prev i j vi vj H Hij Hi Hj; [destruct i; discriminate|].
+  destruct i as [|i].
+  - simpl in Hi. inversion Hi; subst x. simpl in H. destruct vi as [b r s g|]; [|discriminate].
+    apply andb_true_iff in H. destruct H as [_ H].
+    destruct j as [|j].
+    + simpl in Hj. inversion Hj; subst. exists b, r, s, g, b, r, s, g. repeat split. apply le_t_refl.
+    + simpl in Hj. apply nth_error_In in Hj. pose proof (aom_from _ _ _ H Hj) as L.
+      destruct vj as [b' r' s' g'|]; [|destruct L]. exists b, r, s, g, b', r', s', g'. auto.
+  - destruct j as [|j]; [lia|]. simpl in Hi, Hj. simpl in H. destruct x as [b r s g|]; [|discriminate].
+    apply andb_true_iff in H. destruct H as [_ H]. apply (IH _ i j vi vj H); [lia|assumption|assumption].
+Qed.
+
+Theorem prefix_safe ops : forall m n,
+  (m <= n)%nat -> (n <= length (fst (run_fixed sim0 ops)))%nat ->
+  let bsF := s_blocks (snd (run_fixed sim0 ops)) in
+  let ws := fst (run_fixed sim0 ops) in
+  exists b r s g b0 r0 s0 g0,
+    recover bsF (replay db0 (firstn n ws)) = VOk b r s g /\
+    recover bsF (replay db0 (firstn m ws)) = VOk b0 r0 s0 g0 /\
+    le_rs r0 s0 r s = true /\ g0 <= g.
+Proof.
+  intros m n Hmn Hn bsF ws.
+  pose proof (prefix_safe_bool ops) as H. fold bsF ws in H.
+  assert (Hm : (m <= length ws)%nat) by (unfold ws; lia).
+  destruct (aom_pairs _ _ _ _ _ _ H Hmn (crash_points_nth bsF ws db0 m Hm) (crash_points_nth bsF ws db0 n Hn))
+    as [b0 [r0 [s0 [g0 [b [r [s [g [E0 [E1 L]]]]]]]]]].
+  exists b, r, s, g, b0, r0, s0, g0. simpl in L. apply andb_true_iff in L. destruct L as [L1 L2].
+  apply N.leb_le in L2. auto.
+Qed.
+
+(* what a successful restart verdict means *)
+Lemma recover_ok_meaning bs d b r s g : recover bs d = VOk b r s g ->
+  d KHrs = Some (VPair r s) /\ d (KFh r s) = Some (VBlk b) /\
+  has d (KHdr b) = true /\ has d (KBlb b) = true /\ state_ok bs d b = true /\
+  d KSetID = Some (VNum g) /\ has d (KAuth g) = true /\ has d (KChange g) = true.
+Proof.
+  unfold recover. intros H.
+  destruct (d KHrs) as [[| |r0 s0|]|] eqn:E1; try discriminate.
+  destruct (d (KFh r0 s0)) as [[|b0| |]|] eqn:E2; try discriminate.
+  destruct (has d (KHsh 0) && has d (KHdr b0) && state_ok bs d b0) eqn:E3; [|discriminate].
+  destruct (has d (KBlb b0)) eqn:E4; [|discriminate].
+  destruct (d KSetID) as [[| | |g0]|] eqn:E5; try discriminate.
+  destruct (has d (KAuth g0)) eqn:E6; [|discriminate].
+  destruct (has d (KChange g0)) eqn:E7; [|discriminate].
+  inversion H; subst.
+  apply andb_true_iff in E3. destruct E3 as [E3 E3c]. apply andb_true_iff in E3. destruct E3 as [E3a E3b].
+  repeat split; assumption.
 Qed.
